@@ -316,7 +316,18 @@ func c10Run(prog []c10Op) (rule, what string) {
 		}()
 		msg := quickfix.NewMessage()
 		mod := newC10Model()
+		type kept struct {
+			m *quickfix.Message
+			b []byte
+		}
+		var sources []kept // messages copied from: later work on the copy must not show through
 		check := func(stage string) bool {
+			for _, k := range sources {
+				if again := quickfix.VerifBuild(k.m); !bytes.Equal(again, k.b) {
+					rule, what = "C10/C-copy-not-independent", fmt.Sprintf("%s: a message that was copied from now serialises as %s, at copy time %s", stage, fixscan.Pretty(again), fixscan.Pretty(k.b))
+					return false
+				}
+			}
 			b := quickfix.VerifBuild(msg)
 			if r, w := c10CheckBytes(b, mod); r != "" {
 				rule, what = r, stage+": "+w
@@ -358,6 +369,7 @@ func c10Run(prog []c10Op) (rule, what string) {
 					rule, what = "C10/C-copy-disturbed-source", ""
 					return
 				}
+				sources = append(sources, kept{msg, src})
 				msg = dst
 				if o.K == "copyparsed" {
 					// keep working on a fresh copy so that the stale raw bytes cannot mask later builds
